@@ -22,7 +22,7 @@ pub fn run(ctx: &Ctx) -> Evidence {
          secret, ES256 public key, EdDSA public key) over their unix sockets: 1-2 authorized sessions with random grant \
          sets (0-3 patterns per privilege over {{a, b, c, ab, ?, #}}, depth 1-4), 12-28 steps of requests of all 20 kinds \
          with targets inside / outside / straddling the grant, pre-auth probes of every kind on fresh connections, a \
-         never-authorized bystander connection, tokens of 10 invalid classes, second authorization requests; after \
+         never-authorized bystander connection, tokens of 10 invalid classes, second authorization requests, tokens presented again after their expiry; after \
          every request an unrestricted observer reads the whole store back and drains its own subscription to `#`; \
          every message a session receives is judged. A scenario is non-trivial if at least one request inside the grant \
          was served with an observable result and at least one request was refused with its no-effect verified by \
@@ -39,7 +39,7 @@ pub fn run(ctx: &Ctx) -> Evidence {
     c15_session::run(ctx, &mut ev);
     ev.assumptions.push(
         "keys and patterns are built from the segments a, b, c, ab, ? and # (plus one fresh literal in the containment oracle); \
-         tokens within jsonwebtoken's 60 s expiry leeway are not tested; only the unix socket transport is driven \
+         every 500th scenario presents a token while it is valid (inside jsonwebtoken's 60 s leeway) and again on a new session after it has expired; only the unix socket transport is driven \
          (tcp.rs has a copy of the same serve loop, the websocket transport is not driven)"
             .to_owned(),
     );
